@@ -82,7 +82,7 @@ func refNext(lines []string, pos int) (*refPara, string, int) {
 var lineKinds = []string{
 	"Alpha: one\n", "X-Cnf_Visible.Pkg+name:two\n", "Gamma : x:y  \n", "Alpha: again\n", "Empty:\n", "CR: v\r\n",
 	" cont\n", " .\n", "\tTabbed\n", "   indented  \n", "  .\n", " \n", " crcont\r\n", " . \n",
-	"\n", "\r\n", "# comment\n", "NoColonHere\n", " # text of a folded value\n",
+	"\n", "\r\n", "# comment\n", "NoColonHere\n", " # text of a folded value\n", ": no name\n",
 }
 
 // readerMachine builds a machine whose bufio reader plays `lines`.
@@ -188,7 +188,7 @@ func invariantOK(a *refPara) string {
 }
 
 func checkC07(p *Prog, rp *Report) {
-	rp.Explanation = "C07-LINES: (*ParagraphReader).Next is interpreted abstractly with the buffered reader replaced by an oracle playing every script of up to 3 lines over 19 line kinds (field lines with/without blanks, extra colons, empty value, repeated name, CRLF; continuation lines with space/tab, ' .', indented dot, inner indentation, trailing blanks, whitespace only, text starting with '#'; blank lines LF/CRLF; comment; line without colon), each also with the final newline missing, calling Next until end of input; paragraphs and errors are compared with a deb822 reference model (scripts of length 3 reach every combination of reader state class x line kind: no paragraph yet / last field single-line / last field folded). C07-INV: every paragraph returned on any script lists exactly its fields, each once. C07-ALL: All() returns the paragraphs until io.EOF, or an empty list with the first other error. C07-ONE: only Next (and the clearsign decoder before it) reads from the reader; All, decode, decodeSlice and Decoder.Decode obtain paragraphs through Next. C07-LONGLINES: lines are read with ReadString('\\n') (no length limit)."
+	rp.Explanation = "C07-LINES: (*ParagraphReader).Next is interpreted abstractly with the buffered reader replaced by an oracle playing every script of up to 3 lines over 20 line kinds (field lines with/without blanks, extra colons, empty value, repeated name, CRLF; continuation lines with space/tab, ' .', indented dot, inner indentation, trailing blanks, whitespace only, text starting with '#'; blank lines LF/CRLF; comment; line without colon), each also with the final newline missing, calling Next until end of input; paragraphs and errors are compared with a deb822 reference model (scripts of length 3 reach every combination of reader state class x line kind: no paragraph yet / last field single-line / last field folded). C07-INV: every paragraph returned on any script lists exactly its fields, each once. C07-ALL: All() returns the paragraphs until io.EOF, or an empty list with the first other error. C07-ONE: only Next (and the clearsign decoder before it) reads from the reader; All, decode, decodeSlice and Decoder.Decode obtain paragraphs through Next. C07-LONGLINES: lines are read with ReadString('\\n') (no length limit)."
 	rp.NotDecided = "equality with the reference for documents whose lines fall outside the 18 kinds in a way the kinds do not represent (the reader's decisions depend only on: first byte, presence of ':', content after trimming being \".\" or empty); bufio.Reader itself."
 	rp.Trusted = []string{"go/types, go/ssa", "bufio.Reader.ReadString contract (data + io.EOF on a final partial line)", "the deb822 reference model in c07.go; convention: an empty first line is not part of a folded value"}
 
@@ -301,7 +301,7 @@ func checkC07(p *Prog, rp *Report) {
 		lines.undecided("control.ParagraphReader.Next", pos, undec)
 		inv.undecided("control.ParagraphReader.Next", pos, undec)
 	default:
-		lines.check(mismatch == "", "control.ParagraphReader.Next", pos, fmt.Sprintf("%d scripts (every sequence of up to %d of 19 line kinds, with and without the final newline), all calls of Next until end of input agree with the reference", nscripts, map[bool]int{false: 3, true: 4}[rp.Tier == "thorough"]), mismatch)
+		lines.check(mismatch == "", "control.ParagraphReader.Next", pos, fmt.Sprintf("%d scripts (every sequence of up to %d of 20 line kinds, with and without the final newline), all calls of Next until end of input agree with the reference", nscripts, map[bool]int{false: 3, true: 4}[rp.Tier == "thorough"]), mismatch)
 		inv.check(invProblem == "", "control.ParagraphReader.Next", pos, fmt.Sprintf("invariant holds for every paragraph returned on %d scripts, malformed ones included", nscripts), invProblem)
 	}
 
